@@ -1257,7 +1257,7 @@ def compile_with_expression(compiler, expr, root, args, body):
 
     if not cbody:
         cbody = compiler._compile_branch(body)
-        cbody += asty.Assign(expr, targets=[name], value=cbody.force_expr)
+    cbody += asty.Assign(expr, targets=[name], value=cbody.force_expr)
 
     node = asty.AsyncWith if was_async else asty.With
     ret += node(expr, body=cbody.stmts, items=items)
